@@ -725,7 +725,14 @@ class CParser:
         if self._peek_type() == "LBRACE" or self._starts_declaration():
             param_decls = None
             if self._starts_declaration():
+                # Old-style parameter declarations declare the parameters,
+                # which live in the body's scope; nothing is declared in the
+                # enclosing (file) scope.
+                enclosing = self._scope_stack[-1]
+                saved = dict(enclosing)
                 param_decls = self._parse_declaration_list()
+                enclosing.clear()
+                enclosing.update(saved)
             if self._peek_type() != "LBRACE":
                 self._parse_error("Invalid function definition", decl.coord)
             self._declare_definition_parameters(decl)
